@@ -110,6 +110,9 @@ def evaluate(case: Dict[str, Any]) -> Outcome:
             out.classes.add("from_date_reference_filtered_by_own_dates")
         label = cli.method_label(case.get("method"), case.get("schedule"), country)
         path = os.path.join(outdir, f"{case.get('prefix') or ''}{label}_tax_report_{country}.ods")
+        if not os.path.exists(path):
+            out.fail("tax_report_not_written", f"rp2_{country} exited 0 but {os.path.basename(path)} is not in the output directory ({result.files}): none of the window's fractions is listed anywhere")
+            return out
         sheets = files.read_ods(path)
         fmt = report_model.us_date if country == "us" else report_model.ie_date
         expected: Counter = Counter()
